@@ -221,3 +221,50 @@ pub open spec fn joins_list(srn: Seq<Tok>, depths: Seq<usize>, step: int, upto: 
             + if depths[upto - 1] > step { seq![join_item(indexed_name(srn, count_active(depths, step), active_pos(depths, step, upto - 1) as usize))] } else { Seq::<Seq<Tok>>::empty() }
     }
 }
+
+// ---------------------------------------------------------------- C09 / C16: how the branches of one step are joined (tail of generate_step)
+
+/// `<path>::name!`
+pub open spec fn path_macro(path: Seq<Tok>, name: Seq<char>) -> Seq<Tok> {
+    bp(bi(bp(bp(bt(no_toks(), path), ':'), ':'), name), '!')
+}
+
+/// C16: the joiner of a step: only a step with more than one active branch is joined; the user's `custom_joiner` wins;
+/// async macros fall back to `futures_crate_path::try_join!` / `::join!`; sync macros to a plain tuple
+pub open spec fn joiner_spec(active: int, custom: Option<&TokenStream>, is_async: bool, is_try: bool, fcp: Seq<Tok>) -> Option<Seq<Tok>> {
+    if active > 1 {
+        match custom {
+            Some(c) => Some(c@),
+            None => if is_async { Some(path_macro(fcp, if is_try { "try_join"@ } else { "join"@ })) } else { None },
+        }
+    } else { None }
+}
+
+/// C09: ALL step streams of the step go, in branch order, into ONE joiner invocation (async: polled concurrently);
+/// without a joiner (one active branch) the single stream is awaited
+pub open spec fn step_tail_spec(is_async: bool, defs: Seq<Tok>, srn: Seq<Tok>, joiner: Option<Seq<Tok>>, streams_comma: Seq<Tok>, streams_cat: Seq<Tok>,
+                                tb: Seq<Tok>, sj: Seq<Tok>) -> Seq<Tok> {
+    if is_async {
+        let jr = match joiner {
+            Some(j) => bg(bt(no_toks(), j), Delim::Paren, bt(no_toks(), streams_comma)),
+            None => bi(bp(bt(no_toks(), streams_cat), '.'), "await"@),
+        };
+        bp(bt(bp(bt(bi(bt(no_toks(), defs), "let"@), srn), '='), jr), ';')
+    } else {
+        bt(bp(bg(bt(bp(bt(bi(bt(bt(no_toks(), tb), defs), "let"@), srn), '='), match joiner { Some(j) => j, None => no_toks() }), Delim::Paren, bt(no_toks(), streams_comma)), ';'), sj)
+    }
+}
+
+pub open spec fn opt_path(o: Option<&Path>) -> Seq<Tok> { match o { Some(p) => p.ptoks(), None => no_toks() } }
+
+pub open spec fn threads_here(is_async: bool, is_spawn: bool, depths: Seq<usize>, step: int) -> bool {
+    !(is_async || !is_spawn || count_active(depths, step) < 2)
+}
+pub open spec fn tb_spec(is_async: bool, is_spawn: bool, depths: Seq<usize>, step: int) -> Seq<Tok> {
+    if threads_here(is_async, is_spawn, depths, step) { bt(no_toks(), concat_all(tb_list(depths, step, depths.len() as int))) } else { no_toks() }
+}
+pub open spec fn sj_spec(is_async: bool, is_spawn: bool, depths: Seq<usize>, step: int, srn: Seq<Tok>) -> Seq<Tok> {
+    if threads_here(is_async, is_spawn, depths, step) {
+        bp(bg(bp(bt(bi(no_toks(), "let"@), srn), '='), Delim::Paren, bt(no_toks(), join_comma(joins_list(srn, depths, step, depths.len() as int)))), ';')
+    } else { no_toks() }
+}
